@@ -22,12 +22,13 @@
 (*           add_calibration)                                              *)
 (*   heldN   number of standards the held calibration was solved from      *)
 (*   cals    number of calibrations added to the vnacal_t from this life   *)
+(*   merr    measurement-error modelling is on                             *)
 (***************************************************************************)
 EXTENDS CalEq
 
 NoState == [alive |-> FALSE, t |-> "T8", r |-> 1, c |-> 1, nf |-> 0,
             fset |-> FALSE, stds |-> <<>>, neq |-> <<0>>, leak |-> {},
-            held |-> FALSE, heldN |-> 0, cals |-> 0]
+            held |-> FALSE, heldN |-> 0, cals |-> 0, merr |-> FALSE]
 
 (* systems as a sequence: the column systems 1..c, or the single system 0 *)
 SysSeq(t, c) == IF ColSys(t) THEN [k \in 1..c |-> k] ELSE <<0>>
@@ -52,6 +53,11 @@ DoSetF(st, op) ==
     IF op.valid THEN {Okay([st EXCEPT !.fset = TRUE])} ELSE {Usage(st)}
 
 DoSetZ0(st, op) == {Okay(st)}
+
+(* vnacal_new_set_m_error: "vnacal_new_set_frequency_vector must be called *)
+(* before"; enables measurement-error modelling (weighted solve)           *)
+DoSetMErr(st, op) ==
+    IF st.fset THEN {Okay([st EXCEPT !.merr = TRUE])} ELSE {Usage(st)}
 
 (* the 'a' matrix: b_columns x b_columns, or 1 x b_columns for UE14/E12 *)
 AShapeOK(st, op) ==
@@ -114,6 +120,7 @@ Outcomes(st, op) ==
     CASE op.kind = "Alloc"  -> DoAlloc(st, op)
       [] op.kind = "SetF"   -> DoSetF(st, op)
       [] op.kind = "SetZ0"  -> DoSetZ0(st, op)
+      [] op.kind = "SetMErr" -> DoSetMErr(st, op)
       [] op.kind = "Add"    -> DoAdd(st, op)
       [] op.kind = "Solve"  -> DoSolve(st, op)
       [] op.kind = "AddCal" -> DoAddCal(st, op)
